@@ -5,7 +5,7 @@
    [phases y rho]: y and rho have the same length (any number of phases), every y_j >= 0 and
    every rho_j > 0; together with [rsum y = 1] this is "fractions on the simplex, positive
    densities".  closedR y rho = [ (y_j/rho_j) / sum_k (y_k/rho_k) ]_j. *)
-From Coq Require Import List Reals.
+From Coq Require Import List Reals Lra.
 From Coquelicot Require Import Coquelicot.
 Import ListNotations.
 From PP Require Import Model.C42 Proofs.C42 Proofs.C42_chain.
@@ -13,7 +13,7 @@ Open Scope R_scope.
 
 (* Saturations are non-negative ... *)
 Theorem C42_saturations_nonnegative :
-  forall y rho, phases y rho -> rsum y = 1 -> Forall (fun s => 0 <= s) (closedR y rho).
+  forall y rho, phases y rho -> rsum y = 1 -> List.Forall (fun s => 0 <= s) (closedR y rho).
 Proof. exact closed_nonneg. Qed.
 Print Assumptions C42_saturations_nonnegative.
 
@@ -90,8 +90,8 @@ Print Assumptions C42_chainrule_short_rejected.
 
 (* Row normalisation yields rows summing to one (rows with non-zero sum). *)
 Theorem C42_normalize_rows :
-  forall m, Forall (fun row => rsum row <> 0) m ->
-    Forall (fun row => rsum row = 1) (normalize_rowsR m).
+  forall m, List.Forall (fun row => rsum row <> 0) m ->
+    List.Forall (fun row => rsum row = 1) (normalize_rowsR m).
 Proof. exact normalize_rows_sum_one. Qed.
 Print Assumptions C42_normalize_rows.
 
